@@ -282,7 +282,9 @@ namespace vf_stack
         void do_refused(unit& u)
         {
             S& s = *u.obj;
-            if (u.refused >= 2 || s.next_capacity() > (std::size_t(1) << 18))
+            // (the request that follows must fit into the block the stack moves on to, fences included: otherwise it grows a second time
+            //  and the figures noted before the refusal describe another block)
+            if (u.refused >= 2 || s.next_capacity() > (std::size_t(1) << 18) || s.next_capacity() < 64 + 2 * F)
                 return;
             ++u.refused;
             auto nc0  = s.next_capacity();
